@@ -6,6 +6,7 @@ package demos
 
 import (
 	"bytes"
+	"math/big"
 	"runtime"
 	"testing"
 
@@ -692,5 +693,29 @@ func TestD34_FreezeEmptyUnderCheckptr(t *testing.T) {
 	}
 	if !v.IsEmpty() {
 		t.Fatal("view of the frozen empty bitmap is not empty")
+	}
+}
+
+// #35 C20: SumBigValues must be exact when a plane's weight does not fit in 64 bits.
+func TestD35_SumBigValuesBeyond64Bits(t *testing.T) {
+	b := roaring64.NewDefaultBSI()
+	big70 := new(big.Int).Lsh(big.NewInt(1), 70)
+	b.SetBigValue(1, big70)
+	b.SetBigValue(2, big.NewInt(5))
+	want := new(big.Int).Add(big70, big.NewInt(5))
+	if got, n := b.SumBigValues(nil); n != 2 || got.Cmp(want) != 0 {
+		t.Errorf("SumBigValues = %v (count %d), want %v", got, n, want)
+	}
+	c := roaring64.NewDefaultBSI()
+	c.SetValue(1, 1<<62)
+	c.SetValue(2, 1<<62)
+	want = new(big.Int).Lsh(big.NewInt(1), 63)
+	if got, _ := c.SumBigValues(nil); got.Cmp(want) != 0 {
+		t.Errorf("SumBigValues of 2^62+2^62 = %v, want %v", got, want)
+	}
+	d := roaring64.NewDefaultBSI()
+	d.SetBigValue(1, new(big.Int).Neg(big70))
+	if got, _ := d.SumBigValues(nil); got.Cmp(new(big.Int).Neg(big70)) != 0 {
+		t.Errorf("SumBigValues of -2^70 = %v", got)
 	}
 }
